@@ -380,3 +380,38 @@ class Run:
             self.pid, self.tier, self.states, self.transitions, self.traces,
             time.time() - self.t0))
         return 0
+
+
+# ----------------------------------------------------------------------------- generic spec -> impl step
+
+def emit_and_replay(run, module, cfg, name, harness_cmd, timeout=900, header=None, keep=None,
+                    harness_env=None, **tlc_kw):
+    """Runs TLC (model-checks the invariants of cfg and collects REPLAY cases), then replays the
+    cases with `lv-harness <harness_cmd> cases.ndjson out.ndjson`. Returns (cases, mismatches,
+    summary, tlc_result); a violated model invariant is recorded as a mismatch of kind "model"."""
+    tlc_kw.setdefault("coverage", False)
+    res = run_tlc(module, cfg, name, timeout=timeout, **tlc_kw)
+    if res.inv_violated:
+        run.mismatch({"kind": "model", "invariant": res.inv_violated, "cfg": cfg},
+                     {"tlc": res.error_text[:6000]})
+        return [], [], {}, res
+    run.add_tlc(res)
+    cases = res.replays
+    if keep:
+        cases = [c for c in cases if keep(c)]
+    if not cases:
+        raise ToolError("no replay cases emitted by %s/%s" % (module, cfg))
+    wd = workdir(name)
+    inp = os.path.join(wd, "cases.ndjson")
+    outp = os.path.join(wd, "out.ndjson")
+    write_ndjson(inp, (header or []) + cases)
+    p = run_harness(list(harness_cmd) + [inp, outp], timeout=timeout, env=harness_env)
+    try:
+        summ = json.loads(p.stdout.strip().splitlines()[-1])
+    except Exception:
+        raise ToolError("harness printed no summary: %r" % p.stdout[-500:])
+    if summ.get("cases") != len(cases):
+        raise ToolError("harness processed %s of %s cases" % (summ.get("cases"), len(cases)))
+    mism = read_ndjson(outp)
+    run.traces += len(cases)
+    return cases, mism, summ, res
